@@ -2,6 +2,7 @@ package main
 
 import (
 	"fmt"
+	"sync"
 	"go/token"
 	"go/types"
 	"os"
@@ -418,7 +419,7 @@ func (d *Driver) QueryText(vc *VC, o *Obl) string {
 		}
 	}
 	pre := d.preludeFor(bs + force)
-	pre = strings.Replace(pre, ";@@DATA@@\n", d.w.DataDecls(), 1)
+	pre = strings.Replace(pre, ";@@DATA@@\n", d.dataDecls(), 1)
 	return "(set-option :produce-models true)\n(set-logic ALL)\n" + pre + "; ---- VC for " + o.Name + "\n" + bs
 }
 
@@ -558,4 +559,15 @@ func prog_file(d *Driver, fn *ssa.Function) string {
 		return ""
 	}
 	return d.prog.Fset.Position(fn.Pos()).Filename
+}
+
+var declMu sync.Mutex
+
+// dataDecls renders sort/datatype/sequence declarations (serialised: the registries are shared).
+func (d *Driver) dataDecls() string {
+	declMu.Lock()
+	defer declMu.Unlock()
+	// two passes: rendering may register further sequence sorts
+	d.w.DataDecls()
+	return d.w.DataDecls()
 }
